@@ -26,3 +26,75 @@ Theorem C12_stream_roundtrip : forall c hash, cfg_ok c -> forall ts td,
   ((length (cur_locks td) <= N.to_nat (kmax c))%nat -> (length (cur_locks td') <= N.to_nat (kmax c))%nat).
 Proof. exact stream_roundtrip. Qed.
 Print Assumptions C12_stream_roundtrip.
+
+(* ---- the extracted table is a fully working table (StreamGood.v): it satisfies the invariants of the refinement theorems, so every later operation - in locked and normal mode, with expansions - behaves as on the abstract map the source held ---- *)
+From LC Require Import Refine LazyRefine StreamGood.
+Theorem C12_extracted_table_is_well_formed :
+  forall (c : config) (hash : N -> N),
+  cfg_ok c ->
+  forall ts td : table,
+  good c hash ts ->
+  (0 <= sum_cnt (cur_locks ts) < 2 ^ 64)%Z ->
+  locks td <> [] ->
+  cur_locks td <> [] ->
+  all_migrated td ->
+  (length (cur_locks td) <= N.to_nat (kmax c))%nat ->
+  let td' := fst (stream_in c td (stream_out ts)) in
+  good c hash td' /\
+  lgood c hash td' /\
+  (forall (k : N) (v : Z), holds (cur td') k v <-> holds (cur ts) k v) /\
+  (forall (k : N) (v : Z), lholds c td' k v <-> holds (cur ts) k v) /\
+  mlfn td' = mlfn ts /\
+  mlfd td' = mlfd ts /\
+  mhp td' = mhp ts /\ workers td' = workers td /\ tsize td' = tsize ts /\ bhp (cur td') = bhp (cur ts).
+Proof. exact stream_in_good. Qed.
+Print Assumptions C12_extracted_table_is_well_formed.
+
+Theorem C12_operations_after_extraction_refine_the_source_contents :
+  forall (c : config) (hash : N -> N),
+  cfg_ok c ->
+  forall (ts td : table) (m : amap) (fapply : fnk -> Z -> bool -> Z * bool)
+  (w : world) (a : nat) (s : tslot) (o : op) (w' : world) (r : out),
+  nothrow c = true ->
+  good c hash ts ->
+  (0 <= sum_cnt (cur_locks ts) < 2 ^ 64)%Z ->
+  locks td <> [] ->
+  cur_locks td <> [] ->
+  all_migrated td ->
+  (length (cur_locks td) <= N.to_nat (kmax c))%nat ->
+  (forall (k : N) (v : Z), holds (cur ts) k v <-> m k = Some v) ->
+  tb s = fst (stream_in c td (stream_out ts)) ->
+  active s = false ->
+  normal_op o = true ->
+  op_pre c (tb s) o ->
+  step_some c hash fapply w a s o = (w', r) ->
+  lesc c hash (tb s) \/
+  (exists (t' : table) (m' : amap),
+  w' = put_t w a s t' /\
+  lgood c hash t' /\ lim_same (tb s) t' /\ rep c t' m' /\ op_spec c fapply (tb s) m o r m').
+Proof. exact stream_in_then_operation_refines. Qed.
+Print Assumptions C12_operations_after_extraction_refine_the_source_contents.
+
+(* ---- a stream image that does not fit is rejected; raw round trip ---- *)
+From LC Require Import Stream.
+Theorem C12_stream_in_rejects :
+  forall (c : config) (ts td : table),
+  mhp ts < hashpower ts ->
+  snd (stream_in c td (stream_out ts)) = exn_out EInvalidArgument /\
+  cur (fst (stream_in c td (stream_out ts))) = reloaded (cur ts) /\
+  rc (fst (stream_in c td (stream_out ts))) = rc td.
+Proof. exact stream_in_rejects. Qed.
+Print Assumptions C12_stream_in_rejects.
+
+Theorem C12_stream_roundtrip_raw :
+  forall (c : config) (ts td : table),
+  hashpower ts <= mhp ts ->
+  locks td <> [] ->
+  cur_locks td <> [] ->
+  let td' := fst (stream_in c td (stream_out ts)) in
+  snd (stream_in c td (stream_out ts)) = [RNone] /\
+  cur td' = reloaded (cur ts) /\
+  mlfn td' = mlfn ts /\
+  mlfd td' = mlfd ts /\ mhp td' = mhp ts /\ tsize td' = tsize ts /\ rc td' = wrap64 (rc td + 1).
+Proof. exact stream_roundtrip_raw. Qed.
+Print Assumptions C12_stream_roundtrip_raw.
